@@ -89,7 +89,11 @@ func newScope(rootProvider *provider, parent *scope, ctx context.Context, cancel
 // initialization fails is closed, so that whatever the earlier initializers
 // created is disposed and the scope's context is released.
 func (s *scope) runInitializers() error {
-	for _, descriptor := range s.rootProvider.voidReturnScopedDescriptors {
+	s.rootProvider.voidReturnScopedDescriptorsMu.RLock()
+	descriptors := s.rootProvider.voidReturnScopedDescriptors
+	s.rootProvider.voidReturnScopedDescriptorsMu.RUnlock()
+
+	for _, descriptor := range descriptors {
 		if _, err := s.createInstance(descriptor); err != nil {
 			initErr := &ResolutionError{
 				ServiceType: descriptor.Type,
